@@ -4,6 +4,7 @@ package compression
 
 import (
 	"bytes"
+	"errors"
 	"fmt"
 	"io"
 	"net/http"
@@ -255,4 +256,109 @@ func TestVerifC20Constructors(t *testing.T) {
 		}
 	}
 	rep.Sample(map[string]any{"name": "br", "law": "NewBrotliCompressor output is decoded by andybalholm/brotli used directly, and vice versa"})
+}
+
+// TestVerifC20CompressorReuse: compressor instances that are re-targeted
+// (Reset) in the middle of a message, after a failed write, or many times in a
+// row must encode exactly what was written since the last Reset.
+func TestVerifC20CompressorReuse(t *testing.T) {
+	rep := verifkit.Begin("C20", "compressor-reuse", "6 encodings x histories of one compressor instance over steps {message written and closed, message written and ABANDONED by the next Reset (no Close), empty message, message whose sink fails after k bytes, two Resets in a row}; after every Close the sink's bytes are decoded by an independent decoder; oracle: exactly the bytes written since the latest Reset; distinct = (encoding, history)")
+	defer rep.Write()
+	n := verifkit.Scale(150, 5000)
+	for enc := conformancev1.Compression(1); enc <= 6; enc++ {
+		name := verifkit.CompressionName(enc)
+		newComp, _ := vfConstructors(enc)
+		for h := 0; h < n; h++ {
+			rng := verifkit.Stream("c20reuse", int(enc), h)
+			comp := newComp()
+			var hist []string
+			steps := 2 + rng.Intn(5)
+			for s := 0; s < steps; s++ {
+				kind := verifkit.Pick(rng, []string{"closed", "closed", "abandoned", "empty", "sink-fails", "double-reset"})
+				msg := rng.Bytes(verifkit.Pick(rng, []int{1, 42, 300, 20000}))
+				copy(msg, []byte(fmt.Sprintf("MSG-%d-%d-", h, s)))
+				hist = append(hist, fmt.Sprintf("%s(%d)", kind, len(msg)))
+				w := map[string]any{"encoding": name, "history": append([]string(nil), hist...)}
+				rep.Eval(1)
+				pn := verifkit.Catch(func() {
+					switch kind {
+					case "abandoned":
+						var sink bytes.Buffer
+						comp.Reset(&sink)
+						_, _ = comp.Write(msg)
+						// no Close: the caller gave this message up; the next step Resets the instance
+					case "sink-fails":
+						comp.Reset(&vfFailingSink{left: rng.Intn(40)})
+						_, _ = comp.Write(msg)
+						_ = comp.Close()
+					case "double-reset":
+						var a, b bytes.Buffer
+						comp.Reset(&a)
+						comp.Reset(&b)
+						_, _ = comp.Write(msg)
+						if err := comp.Close(); err != nil {
+							rep.Violation("compress/"+name+"/reuse/close-error", err.Error(), w)
+							return
+						}
+						if a.Len() > 0 {
+							rep.Violation("compress/"+name+"/reuse/wrote-to-abandoned-sink", fmt.Sprintf("%d bytes reached a sink that was replaced before anything was written", a.Len()), w)
+						}
+						vfCheckEncoded(rep, name, b.Bytes(), msg, w)
+					default:
+						if kind == "empty" {
+							msg = nil
+						}
+						var sink bytes.Buffer
+						comp.Reset(&sink)
+						if len(msg) > 0 {
+							half := len(msg) / 2
+							_, _ = comp.Write(msg[:half])
+							_, _ = comp.Write(msg[half:])
+						}
+						if err := comp.Close(); err != nil {
+							rep.Violation("compress/"+name+"/reuse/close-error", err.Error(), w)
+							return
+						}
+						vfCheckEncoded(rep, name, sink.Bytes(), msg, w)
+					}
+				})
+				if pn != nil {
+					rep.Violation("compress/"+name+"/reuse/panic/"+pn.Site, pn.Value, w)
+					break
+				}
+			}
+			rep.DistinctKey(name, hist)
+		}
+	}
+	rep.Sample(map[string]any{"encoding": "zstd", "history": []string{"abandoned(300)", "closed(42)"}, "expect": "the second sink decodes to exactly the 42 bytes"})
+	rep.RequireMin("reuse_decoded_ok", 500)
+}
+
+type vfFailingSink struct{ left int }
+
+func (f *vfFailingSink) Write(p []byte) (int, error) {
+	if len(p) > f.left {
+		n := f.left
+		f.left = 0
+		return n, errors.New("sink full")
+	}
+	f.left -= len(p)
+	return len(p), nil
+}
+
+func vfCheckEncoded(rep *verifkit.Report, name string, encoded, want []byte, w map[string]any) {
+	got, err := verifkit.IndepDecompress(name, encoded)
+	if len(want) == 0 && len(encoded) == 0 {
+		rep.Count("reuse_decoded_ok", 1) // nothing written, nothing emitted
+		return
+	}
+	if err != nil {
+		rep.Violation("compress/"+name+"/reuse/not-decodable", fmt.Sprintf("independent %s decoder rejects the output: %v", name, err), w)
+		return
+	}
+	if !bytes.Equal(got, want) {
+		rep.Violation("compress/"+name+"/reuse/stale-or-missing-bytes", fmt.Sprintf("output decodes to %d bytes (starting %q), the %d bytes written since the last Reset start %q", len(got), verifkit.Trunc(string(got), 24), len(want), verifkit.Trunc(string(want), 24)), w)
+		return
+	}
+	rep.Count("reuse_decoded_ok", 1)
 }
